@@ -7,11 +7,12 @@ model request line."""
 from __future__ import annotations
 
 import warnings
+from datetime import datetime, timedelta
 from pathlib import Path
 
 warnings.filterwarnings("ignore")
 
-MUTATING = {"N", "W", "AR", "AC", "DR", "DC", "M"}
+MUTATING = {"N", "W", "AR", "AC", "DR", "DC", "M", "RN"}
 
 
 def fmt(x):
@@ -27,12 +28,22 @@ def impl_value(v):
     so that string tables (one per table) take part in the isolation and save/reopen observations."""
     if v is None:
         return None
+    if v % 7 == 0:
+        # a date-time with a sub-second part, before the 2001 storage epoch
+        return _DT_BASE + timedelta(microseconds=v * _DT_STEP)
     return f"t{v}" if v % 3 == 0 else v
+
+
+_DT_BASE = datetime(2000, 1, 1)
+_DT_STEP = 1234567
 
 
 def val_token(v):
     if v is None:
         return "-"
+    if isinstance(v, datetime):
+        us = (v - _DT_BASE) // timedelta(microseconds=1)
+        return str(us // _DT_STEP) if us % _DT_STEP == 0 else _foreign(v)
     if isinstance(v, str) and v[:1] == "t" and v[1:].lstrip("-").isdigit():
         return v[1:]
     if isinstance(v, bool):
@@ -41,7 +52,12 @@ def val_token(v):
         return str(int(v))
     if isinstance(v, int):
         return str(v)
-    return "?" + repr(v)
+    return _foreign(v)
+
+
+def _foreign(v):
+    """A value that is no token of the history: shown with the dump's own separators removed."""
+    return "?" + "".join(ch if ch not in ".:;/\t\n" else "_" for ch in repr(v))
 
 
 def show_cell(c) -> str:
@@ -90,10 +106,11 @@ class ImplDoc:
         self.name = name
         self.doc = None
         self.tables = []
+        self.names = []      # current name of table i: tables are addressed by name through the API on every step
         self.saves = 0
 
     def _table(self, i):
-        return self.tables[i]
+        return self.doc.sheets[0].tables[self.names[i]]
 
     def apply(self, op) -> str:
         from numbers_parser import Document
@@ -106,6 +123,11 @@ class ImplDoc:
                     self.tables.append(self.doc.sheets[0].tables[0])
                 else:
                     self.tables.append(self.doc.sheets[0].add_table(num_rows=op[1], num_cols=op[2]))
+                self.names.append(self.tables[-1].name)
+                return "ok"
+            if k == "RN":
+                self._table(op[1]).name = op[2]
+                self.names[op[1]] = op[2]
                 return "ok"
             t = self._table(op[1])
             if k == "W":
